@@ -262,6 +262,29 @@ theorem exec_popStackPutEnv_frame (n : Nat) (s : St) (x : String) (top : Nat) (r
         · vmsimp [bindTop, setInScope, scopeOf, hd, hl, hx, hr, List.getElem?_set_ne (Ne.symm hne)]
         · vmsimp [bindTop, setInScope, scopeOf, hd, hl, hx, hr]
 
+/-- `PopStackPutEnv` (whatever its outcome) leaves the scope stack as it was. -/
+theorem exec_popStackPutEnv_linear (n : Nat) (s : St) (x : String) :
+    ((exec (n+1) (.popStackPutEnv x)).run s).2.linear = s.linear := by
+  simp only [exec]
+  cases hd : s.data with
+  | nil => vmsimp [hd]
+  | cons v D =>
+    cases v with
+    | none => vmsimp [hd]
+    | some v =>
+      cases hl : s.linear with
+      | nil => vmsimp [bindTop, hd, hl]
+      | cons top rest =>
+        cases top with
+        | none => vmsimp [bindTop, hd, hl]
+        | some top =>
+          cases hx : (s.scopes[top]?.getD {}).vars.lookup x with
+          | none => vmsimp [bindTop, setInScope, scopeOf, hd, hl, hx]
+          | some cur =>
+            by_cases hr : rebindOk s.heap cur v = true
+            · vmsimp [bindTop, setInScope, scopeOf, hd, hl, hx, hr]
+            · vmsimp [bindTop, setInScope, scopeOf, hd, hl, hx, hr]
+
 /-- `AddFuncScope` puts a scope on top that did not exist before (its id is the old size of
 the scope table) and leaves every existing scope as it was. -/
 theorem exec_addFuncScope_fresh (n : Nat) (s : St) (t : Nat) :
